@@ -136,7 +136,9 @@ theorem replace_outcome {f : Forest} (w : f.W) (a b : Nat) :
                 have hr : r = .ok := m.ok
                 subst hr
                 simp only
-                exact okRes_consolidate m.w (by rw [m.corrupt, fr.corrupt]) _ _
+                cases f.nextSibling a with
+                | none => exact ⟨rfl, m.w, by rw [m.corrupt, fr.corrupt]⟩
+                | some n => exact okRes_consolidate m.w (by rw [m.corrupt, fr.corrupt]) _ _
 
 end Forest
 end XotModel
